@@ -27,6 +27,9 @@ def preserving(t, param):
     if t[0] == "call":
         if t[1] in PRESERVING and t[2]:
             return preserving(t[2][0], param)
+        if t[1] in (("Index", "index"), ("IndexMut", "index_mut")) and len(t[2]) == 2 and \
+                t[2][1][0] == "agg" and str(t[2][1][1]).startswith("RangeFull"):
+            return preserving(t[2][0], param)  # `&item[..]`: the whole value as a slice
         if t[1] == ("Iterator", "map") and len(t[2]) == 2:
             f = t[2][1]
             if not preserving(t[2][0], param):
@@ -144,6 +147,41 @@ def signature(F, cat, b):
         else:
             kinds.add(t[0])
     return frozenset(sig), frozenset(kinds - {"forward"})
+
+
+def r_skip_take(F, R, cat=None):
+    """`iter.skip(a).take(n)` takes a *count*.  When a and n are the start and the end of one
+    (start, end) pair -- the two fields of a range-like read item or the two components of a
+    (usize, usize) index -- the adaptor chain yields end elements instead of end - start: the
+    copy runs on into the items stored behind the one that was asked for."""
+    from core import all_ctxs
+    from expr import nobb
+    n = 0
+    for top in F.bodies.values():
+        if top.in_tests() or top.derived or top.kind == "Closure":
+            continue
+        for ctx in all_ctxs(F, top):
+            for (bi, t) in ctx.body.calls():
+                if callee_tag(t.get("callee")) != ("Iterator", "take") or len(t["args"]) != 2:
+                    continue
+                recv = nobb(operand_tree(ctx, t["args"][0]))
+                cnt = nobb(operand_tree(ctx, t["args"][1]))
+                skips = [nd for nd in walk(recv) if nd and nd[0] == "call" and nd[1] == ("Iterator", "skip") and len(nd[2]) == 2]
+                if not skips:
+                    continue
+                n += 1
+                a = skips[0][2][1]
+                bad = False
+                if a[0] == "place" and cnt[0] == "place" and a[1:3] == cnt[1:3] and a[3] and cnt[3] and \
+                        tuple(a[3][:-1]) == tuple(cnt[3][:-1]):
+                    pair = (a[3][-1], cnt[3][-1])
+                    bad = pair in (("f:start", "f:end"), ("f:0", "f:1"), ("f:lower", "f:upper"), ("f:lo", "f:hi"))
+                R.saw(top)
+                R.check("R-FORWARD", top.label(), not bad, construct="skip(start).take(count)",
+                        where="%s:%s" % (ctx.body.file, t["line"]),
+                        detail="take(%s) after skip(%s)" % (show(cnt), show(a)) +
+                        (": the end of the pair is used as a count" if bad else ""))
+    R.info("R-FORWARD: %d skip(..).take(..) chains inspected" % n)
 
 
 def r_sibling(F, R, cat=None):
